@@ -32,8 +32,8 @@ func catalogPods() []PodCase {
 	}
 	add("base", func(p *corev1.Pod) {})
 	locs := []struct {
-		name string
-		sc   func(p *corev1.Pod) *corev1.SecurityContext
+		name  string
+		sc    func(p *corev1.Pod) *corev1.SecurityContext
 		ports func(p *corev1.Pod) *[]corev1.ContainerPort
 	}{
 		{"init", func(p *corev1.Pod) *corev1.SecurityContext { return p.Spec.InitContainers[0].SecurityContext }, func(p *corev1.Pod) *[]corev1.ContainerPort { return &p.Spec.InitContainers[0].Ports }},
@@ -119,7 +119,9 @@ func catalogPods() []PodCase {
 	add("pod.seccomp=nil", func(p *corev1.Pod) { p.Spec.SecurityContext.SeccompProfile = nil })
 	add("pod.seccomp=nil,containers=set", func(p *corev1.Pod) {
 		p.Spec.SecurityContext.SeccompProfile = nil
-		visit(&p.Spec, func(c *corev1.Container) { c.SecurityContext.SeccompProfile = &corev1.SeccompProfile{Type: "Localhost"} })
+		visit(&p.Spec, func(c *corev1.Container) {
+			c.SecurityContext.SeccompProfile = &corev1.SeccompProfile{Type: "Localhost"}
+		})
 	})
 	for _, t := range seccompTypes {
 		t := t
@@ -137,11 +139,96 @@ func catalogPods() []PodCase {
 	add("pod.seLinux.role", func(p *corev1.Pod) { p.Spec.SecurityContext.SELinuxOptions = &corev1.SELinuxOptions{Role: "r"} })
 	for _, b := range []*bool{nil, bp(true), bp(false)} {
 		b := b
-		add("pod.hostProcess", func(p *corev1.Pod) { p.Spec.SecurityContext.WindowsOptions = &corev1.WindowsSecurityContextOptions{HostProcess: b} })
+		add("pod.hostProcess", func(p *corev1.Pod) {
+			p.Spec.SecurityContext.WindowsOptions = &corev1.WindowsSecurityContextOptions{HostProcess: b}
+		})
 	}
 	for _, s := range sysctlNames {
 		s := s
 		add("pod.sysctl", func(p *corev1.Pod) { p.Spec.SecurityContext.Sysctls = []corev1.Sysctl{{Name: s, Value: "1"}} })
+	}
+	// pod level x container level: every pair (pod-level value, value set on the containers), with the containers' value set
+	// on every container ("all") or on every container but one ("butInit" / "butEph" leave that one to inherit) — a pod-level
+	// value must be judged on its own where the standard restricts the pod-level field, and may be covered / cover only
+	// where the standard says so
+	scopes := []struct {
+		name string
+		skip string
+	}{{"all", ""}, {"butInit", "init"}, {"butEph", "eph"}}
+	each := func(p *corev1.Pod, skip string, f func(sc *corev1.SecurityContext)) {
+		visit(&p.Spec, func(c *corev1.Container) {
+			if c.Name != skip {
+				f(c.SecurityContext)
+			}
+		})
+	}
+	for _, sc := range scopes {
+		sc := sc
+		for _, pt := range append([]corev1.SeccompProfileType{"<nil>"}, seccompTypes[:5]...) {
+			for _, ct := range seccompTypes[:4] {
+				pt, ct := pt, ct
+				add("pair.seccomp."+sc.name, func(p *corev1.Pod) {
+					p.Spec.SecurityContext.SeccompProfile = &corev1.SeccompProfile{Type: pt}
+					if pt == "<nil>" {
+						p.Spec.SecurityContext.SeccompProfile = nil
+					}
+					each(p, sc.skip, func(s *corev1.SecurityContext) { s.SeccompProfile = &corev1.SeccompProfile{Type: ct} })
+				})
+			}
+		}
+		for _, pb := range []*bool{nil, bp(true), bp(false)} {
+			for _, cb := range []*bool{bp(true), bp(false)} {
+				pb, cb := pb, cb
+				add("pair.runAsNonRoot."+sc.name, func(p *corev1.Pod) {
+					p.Spec.SecurityContext.RunAsNonRoot = pb
+					each(p, sc.skip, func(s *corev1.SecurityContext) { s.RunAsNonRoot = cb })
+				})
+			}
+		}
+		for _, pu := range []*int64{nil, ip(0), ip(1000)} {
+			for _, cu := range []*int64{ip(0), ip(1000)} {
+				pu, cu := pu, cu
+				add("pair.runAsUser."+sc.name, func(p *corev1.Pod) {
+					p.Spec.SecurityContext.RunAsUser = pu
+					each(p, sc.skip, func(s *corev1.SecurityContext) { s.RunAsUser = cu })
+				})
+			}
+		}
+		for _, pt := range append([]corev1.AppArmorProfileType{"<nil>"}, appArmorTypes[:4]...) {
+			for _, ct := range appArmorTypes[:4] {
+				pt, ct := pt, ct
+				add("pair.appArmor."+sc.name, func(p *corev1.Pod) {
+					if pt != "<nil>" {
+						p.Spec.SecurityContext.AppArmorProfile = &corev1.AppArmorProfile{Type: pt}
+					}
+					each(p, sc.skip, func(s *corev1.SecurityContext) { s.AppArmorProfile = &corev1.AppArmorProfile{Type: ct} })
+				})
+			}
+		}
+		for _, pt := range []string{"<nil>", "", "container_t", "spc_t", "container_engine_t"} {
+			for _, ct := range []string{"", "container_t", "spc_t", "container_engine_t"} {
+				pt, ct := pt, ct
+				add("pair.seLinux."+sc.name, func(p *corev1.Pod) {
+					if pt != "<nil>" {
+						p.Spec.SecurityContext.SELinuxOptions = &corev1.SELinuxOptions{Type: pt}
+					}
+					each(p, sc.skip, func(s *corev1.SecurityContext) { s.SELinuxOptions = &corev1.SELinuxOptions{Type: ct} })
+				})
+			}
+		}
+		for _, pb := range []*bool{nil, bp(true), bp(false)} {
+			for _, cb := range []*bool{bp(true), bp(false)} {
+				pb, cb := pb, cb
+				add("pair.hostProcess."+sc.name, func(p *corev1.Pod) {
+					if pb != nil {
+						p.Spec.SecurityContext.WindowsOptions = &corev1.WindowsSecurityContextOptions{HostProcess: pb}
+					}
+					each(p, sc.skip, func(s *corev1.SecurityContext) {
+						s.WindowsOptions = &corev1.WindowsSecurityContextOptions{HostProcess: cb}
+					})
+				})
+			}
+		}
 	}
 	add("pod.sc=nil", func(p *corev1.Pod) { p.Spec.SecurityContext = nil })
 	add("hostNetwork", func(p *corev1.Pod) { p.Spec.HostNetwork = true })
@@ -173,6 +260,98 @@ func catalogPods() []PodCase {
 	for _, vs := range volSources {
 		vs := vs
 		add("volume", func(p *corev1.Pod) { p.Spec.Volumes = []corev1.Volume{{Name: "vol", VolumeSource: vs()}} })
+	}
+	// cross-control pairs: two representative atoms (mostly one violating value per control, at different locations) applied
+	// to the same compliant pod — what one control reports must not depend on what another control sees. Sampled at a
+	// few versions each (FewMinors), round-robin, because there are several hundred of them.
+	type rep struct {
+		name string
+		f    func(p *corev1.Pod)
+	}
+	ctr := func(p *corev1.Pod) *corev1.SecurityContext { return p.Spec.Containers[0].SecurityContext }
+	ini := func(p *corev1.Pod) *corev1.SecurityContext { return p.Spec.InitContainers[0].SecurityContext }
+	eph := func(p *corev1.Pod) *corev1.SecurityContext { return p.Spec.EphemeralContainers[0].SecurityContext }
+	unmasked := corev1.ProcMountType("Unmasked")
+	reps := []rep{
+		{"ctr.privileged", func(p *corev1.Pod) { ctr(p).Privileged = bp(true) }},
+		{"init.ape", func(p *corev1.Pod) { ini(p).AllowPrivilegeEscalation = bp(true) }},
+		{"eph.caps.add=SYS_ADMIN", func(p *corev1.Pod) { eph(p).Capabilities.Add = []corev1.Capability{"SYS_ADMIN"} }},
+		{"ctr.caps.add=NET_BIND_SERVICE", func(p *corev1.Pod) { ctr(p).Capabilities.Add = []corev1.Capability{"NET_BIND_SERVICE"} }},
+		{"ctr.caps.add=CHOWN", func(p *corev1.Pod) { ctr(p).Capabilities.Add = []corev1.Capability{"CHOWN"} }},
+		{"init.caps.drop=nil", func(p *corev1.Pod) { ini(p).Capabilities.Drop = nil }},
+		{"eph.sc=nil", func(p *corev1.Pod) { p.Spec.EphemeralContainers[0].SecurityContext = nil }},
+		{"ctr.procMount", func(p *corev1.Pod) { ctr(p).ProcMount = &unmasked }},
+		{"init.runAsNonRoot=false", func(p *corev1.Pod) { ini(p).RunAsNonRoot = bp(false) }},
+		{"pod.runAsNonRoot=nil", func(p *corev1.Pod) { p.Spec.SecurityContext.RunAsNonRoot = nil }},
+		{"ctr.runAsUser=0", func(p *corev1.Pod) { ctr(p).RunAsUser = ip(0) }},
+		{"pod.runAsUser=0", func(p *corev1.Pod) { p.Spec.SecurityContext.RunAsUser = ip(0) }},
+		{"ctr.seccomp=Unconfined", func(p *corev1.Pod) { ctr(p).SeccompProfile = &corev1.SeccompProfile{Type: "Unconfined"} }},
+		{"pod.seccomp=Unconfined", func(p *corev1.Pod) {
+			p.Spec.SecurityContext.SeccompProfile = &corev1.SeccompProfile{Type: "Unconfined"}
+		}},
+		{"pod.seccomp=nil", func(p *corev1.Pod) { p.Spec.SecurityContext.SeccompProfile = nil }},
+		{"eph.appArmor=Unconfined", func(p *corev1.Pod) { eph(p).AppArmorProfile = &corev1.AppArmorProfile{Type: "Unconfined"} }},
+		{"pod.appArmor=Unconfined", func(p *corev1.Pod) {
+			p.Spec.SecurityContext.AppArmorProfile = &corev1.AppArmorProfile{Type: "Unconfined"}
+		}},
+		{"ctr.seLinux=spc_t", func(p *corev1.Pod) { ctr(p).SELinuxOptions = &corev1.SELinuxOptions{Type: "spc_t"} }},
+		{"pod.seLinux.user", func(p *corev1.Pod) { p.Spec.SecurityContext.SELinuxOptions = &corev1.SELinuxOptions{User: "u"} }},
+		{"init.hostProcess", func(p *corev1.Pod) {
+			ini(p).WindowsOptions = &corev1.WindowsSecurityContextOptions{HostProcess: bp(true)}
+		}},
+		{"pod.hostProcess", func(p *corev1.Pod) {
+			p.Spec.SecurityContext.WindowsOptions = &corev1.WindowsSecurityContextOptions{HostProcess: bp(true)}
+		}},
+		{"ctr.hostPort=containerPort", func(p *corev1.Pod) {
+			p.Spec.Containers[0].Ports = []corev1.ContainerPort{{ContainerPort: 8080, HostPort: 8080}}
+		}},
+		{"init.hostPort", func(p *corev1.Pod) {
+			p.Spec.InitContainers[0].Ports = []corev1.ContainerPort{{ContainerPort: 80, HostPort: 81}}
+		}},
+		{"hostNetwork", func(p *corev1.Pod) { p.Spec.HostNetwork = true }},
+		{"hostPID", func(p *corev1.Pod) { p.Spec.HostPID = true }},
+		{"hostIPC", func(p *corev1.Pod) { p.Spec.HostIPC = true }},
+		{"hostUsers=false", func(p *corev1.Pod) { p.Spec.HostUsers = bp(false) }},
+		{"os=windows", func(p *corev1.Pod) { p.Spec.OS = &corev1.PodOS{Name: "windows"} }},
+		{"os=linux", func(p *corev1.Pod) { p.Spec.OS = &corev1.PodOS{Name: "linux"} }},
+		{"sysctl=kernel.msgmax", func(p *corev1.Pod) {
+			p.Spec.SecurityContext.Sysctls = []corev1.Sysctl{{Name: "kernel.msgmax", Value: "1"}}
+		}},
+		{"sysctl=tcp_rmem", func(p *corev1.Pod) {
+			p.Spec.SecurityContext.Sysctls = []corev1.Sysctl{{Name: "net.ipv4.tcp_rmem", Value: "1"}}
+		}},
+		{"volume=hostPath", func(p *corev1.Pod) {
+			p.Spec.Volumes = append(p.Spec.Volumes, corev1.Volume{Name: "hp", VolumeSource: corev1.VolumeSource{HostPath: &corev1.HostPathVolumeSource{Path: "/"}}})
+		}},
+		{"volume=nfs", func(p *corev1.Pod) {
+			p.Spec.Volumes = append(p.Spec.Volumes, corev1.Volume{Name: "nfs", VolumeSource: corev1.VolumeSource{NFS: &corev1.NFSVolumeSource{Server: "s", Path: "/"}}})
+		}},
+		{"ann.seccomp.pod=unconfined", func(p *corev1.Pod) {
+			if p.Annotations == nil {
+				p.Annotations = map[string]string{}
+			}
+			p.Annotations["seccomp.security.alpha.kubernetes.io/pod"] = "unconfined"
+		}},
+		{"ann.apparmor.ctr=unconfined", func(p *corev1.Pod) {
+			if p.Annotations == nil {
+				p.Annotations = map[string]string{}
+			}
+			p.Annotations["container.apparmor.security.beta.kubernetes.io/ctr"] = "unconfined"
+		}},
+		{"nodeSelector.windows", func(p *corev1.Pod) { p.Spec.NodeSelector = map[string]string{"kubernetes.io/os": "windows"} }},
+	}
+	for i := range reps {
+		for j := i + 1; j < len(reps); j++ {
+			a, b := reps[i], reps[j]
+			p := base()
+			if a.name == "eph.sc=nil" { // removes the struct the other atom may write into: apply it last
+				a, b = b, a
+			}
+			a.f(p)
+			b.f(p)
+			p.Name = fmt.Sprintf("cat-%d", len(out))
+			out = append(out, PodCase{Pod: p, Base: "catalog", Atoms: []string{"cross." + a.name, "cross." + b.name}, FewMinors: true})
+		}
 	}
 	// noise fields in isolation: must not change anything
 	add("noise.nodeSelector.windows", func(p *corev1.Pod) { p.Spec.NodeSelector = map[string]string{"kubernetes.io/os": "windows"} })
